@@ -75,6 +75,24 @@ CHECKS = {
     note="Unique flag of the sole column of a NAMED single-column UNIQUE not judged (left open by the property); bounded tables; "
          "TLC, PLY, CPython trusted.",
     design="DESIGN.md 3.4, 4 (C02)", technique=TECH + " (TableFold.tla)"),
+ "C17": dict(
+    text="TLC model-checks OneKeyPerOption / NoLeak / SeqModeLocal of spec/Entities.tla (p_expression_seq's dict updates and the "
+         "lexer's sequence-keyword flag) over every ordered choice of <=4 (thorough 6) of the 6 option groups x both forms, alone and in "
+         "3-statement scripts with a table whose columns are named like sequence keywords and further sequences, and must refute "
+         "SeqModeLocal when the flag is not reset per statement. Every complete behaviour is rendered (keyword case, quoted names, "
+         "values incl. negative, 2^31, 2^63-1, -2^63 by seed) and parsed by the real library; every sequence entity must equal, key for "
+         "key and type for type (True is not 1), what TLC computed, and the neighbouring table keeps its keyword-named columns.",
+    note="Values and names are pool representatives; TLC, PLY, CPython trusted.",
+    design="DESIGN.md 3.5, 4 (C17)", technique=TECH + " (Entities.tla)"),
+ "C18": dict(
+    text="TLC model-checks OneEntityExact / NoLeak / SeqModeLocal of spec/Entities.tla over every script of <=3 declarations from a "
+         "catalogue of 24 declaration forms (TYPE AS ENUM/OBJECT/TABLE, DOMAIN, SCHEMA [IF NOT EXISTS] [AUTHORIZATION] [COMMENT], "
+         "DATABASE, [BIGFILE|SMALLFILE] [TEMPORARY] TABLESPACE, a table using the types) interleaved with sequences. Every complete "
+         "behaviour is rendered and parsed by the real library: one entity per declaration, in order, of the declared kind, carrying the "
+         "expected schema / name / base type / values / attributes / authorization / comment / kind / temporary; type names verbatim "
+         "in the using table. Forms on which the pinned tree deviates are KNOWN-FINDINGs.",
+    note="Declaration forms are a hand-written catalogue (expected fields from the property text); TLC, PLY, CPython trusted.",
+    design="DESIGN.md 3.5, 4 (C18)", technique=TECH + " (Entities.tla)"),
 }
 NOT_YET = {}
 def main():
